@@ -149,3 +149,38 @@ pub fn mask_undefined_flags(s: &mut Sem) {
         }
     }
 }
+
+/// Workload twist: gives some of the class's unknown attributes a *predefined* name at a location where JVMS does not
+/// define that attribute (`Code` on a field, `ConstantValue` on a class, `Deprecated` inside `Code` ...). There it
+/// is an unrecognised attribute like any other and must come back byte for byte, attached to the same member.
+/// `pick(n)` draws uniformly from 0..n.
+pub fn misplace_names(s: &mut Sem, pick: &mut dyn FnMut(u64) -> u64) -> u64 {
+    const ON_CLASS: &[&str] = &["Code", "ConstantValue", "Exceptions", "LineNumberTable", "LocalVariableTable", "StackMapTable", "AnnotationDefault", "MethodParameters"];
+    const ON_FIELD: &[&str] = &["Code", "SourceFile", "Exceptions", "LineNumberTable", "InnerClasses", "Record", "StackMapTable", "MethodParameters", "BootstrapMethods"];
+    const ON_METHOD: &[&str] = &["ConstantValue", "SourceFile", "InnerClasses", "LineNumberTable", "StackMapTable", "Module", "NestHost", "LocalVariableTable"];
+    const IN_CODE: &[&str] = &["Code", "ConstantValue", "Signature", "Exceptions", "Deprecated", "Synthetic", "SourceFile", "RuntimeVisibleAnnotations"];
+    const ON_COMPONENT: &[&str] = &["Deprecated", "Synthetic", "ConstantValue", "Code"];
+    let mut n = 0;
+    let mut go = |v: &mut Vec<UnknownAttr>, names: &[&str], pick: &mut dyn FnMut(u64) -> u64| {
+        for a in v.iter_mut() {
+            if pick(2) == 0 {
+                a.name = JStr::from_str(names[pick(names.len() as u64) as usize]);
+                n += 1;
+            }
+        }
+    };
+    go(&mut s.unknown, ON_CLASS, pick);
+    for f in &mut s.fields {
+        go(&mut f.unknown, ON_FIELD, pick);
+    }
+    for m in &mut s.methods {
+        go(&mut m.unknown, ON_METHOD, pick);
+        if let Some(c) = &mut m.code {
+            go(&mut c.unknown, IN_CODE, pick);
+        }
+    }
+    for rc in s.record.iter_mut().flatten() {
+        go(&mut rc.unknown, ON_COMPONENT, pick);
+    }
+    n
+}
